@@ -3,12 +3,11 @@
 prop=${1:-all}; tier=${2:-quick}; par=${3:-4}
 cd /verif
 while IFS= read -r line; do
-  name=$(echo "$line" | cut -d'|' -f1); p=$(echo "$line" | cut -d'|' -f2)
+  mapfile -t parts < <(echo "$line" | awk -F' @@ ' '{for(i=1;i<=NF;i++) print $i}')
+  name=${parts[0]}; p=${parts[1]}
   [ "$prop" != all ] && [ "$prop" != "$p" ] && continue
-  rest=$(echo "$line" | cut -d'|' -f3-)
   args=()
-  IFS='|' read -ra parts <<< "$rest"
-  for ((i=0; i<${#parts[@]}; i+=2)); do args+=(-e "${parts[i+1]}" "${parts[i]}"); done
+  for ((i=2; i<${#parts[@]}; i+=2)); do args+=(-e "${parts[i+1]}" "${parts[i]}"); done
   echo "$name $p" >&2
   ( tools/mutant.sh "$name" "$p" "$tier" "${args[@]}" 2>&1 | grep -E "^MUTANT" ) &
   while [ $(jobs -r | wc -l) -ge $par ]; do sleep 0.5; done
